@@ -13,4 +13,7 @@ for _p in ('C01', 'C02', 'C03', 'C16', 'C17'):
 CHECKS['C20'] = {'technique': MS, 'engine': 'mirsym',
     'text': 'Bounded symbolic verification: the conversion functions of the type crate and of the Kamino/Solend/Drift mocks crates are executed symbolically from their own MIR; exactness, direction of rounding, fail-closed overflow and round trips are decided by z3 for all integer inputs.',
     'note': 'Trusted: rustc MIR, library models, z3. Reserve-level wrappers that only delegate to the proven functions are covered through them; staleness of the venue itself is the venue program\'s business.'}
+CHECKS['C18'] = {'technique': MS + '; assume/guarantee (leaf contracts proved from MIR, then used as summaries)', 'engine': 'mirsym',
+    'text': 'Bounded symbolic verification: lerp / rate_from_u32 / util_from_u32 contracts are proved from their MIR for all inputs; the seven-point curve (5 points unrolled through iterator models, closure MIR executed) and calc_interest_rate are then decided with the leaves replaced by exactly those contracts. Legacy curve decided directly.',
+    'note': 'Trusted: rustc MIR, library + iterator models, z3. The validator-accepts-only-VALID7 link is a separate obligation (C18.v); fee magnitudes bounded by 2^20.'}
 NOT_APPLICABLE = {}
